@@ -140,7 +140,11 @@ PROPS = {
     # protocol theorems are about the transition systems of Impl/Par.lean, pinned to the source by the skeleton obligations
     "C12": {"suites": [("sched", 1.0)], "theorems": PAR + L1_AGG[:3],
             "modules": DEFAULT_MODULES + ["RProofs.Agg", "RProofs.Par", "RProofs.Facts.Skeleton"], "owns": {"sched", "concdec", "concagg"},
-            "race_suites": [("sched", 1.0)]},
+            # everything a race-detector job reports is C12's (also on the goroutine-parallel paths of the bit-sliced indexes and
+            # of the 64-bit bitmap, whose results are checked by C17/C19/C20); elsewhere C12 owns its own commands only
+            "owns_fn": lambda op, mm, suite: suite.startswith("race:") or op in ("sched", "concdec", "concagg"),
+            "race_suites": [("sched", 1.0), ("bsi", 1.0), ("bsiq", 0.5), ("bsix", 0.3), ("r64", 0.5), ("agg", 0.5)],
+            "race_quick": [("sched", 0.3), ("bsi", 0.4), ("bsiq", 0.3), ("r64", 0.3)]},
     "C13": {"suites": [("frozen", 1.0), ("frozenmis", 0.5)], "corpus": ["corpus/C10/frozen-bitmap4096.txt"],
             "theorems": ["RModel.Impl.freeze_length", "RModel.Impl.frozenView_freeze", "RModel.Impl.frozenView_no_panic",
                          "RModel.FrozenSpec.frozenSpec_freeze", "RModel.BSet.canon_ext", "RModel.Facts.frozenCookie_spec"],
